@@ -126,7 +126,7 @@ var props = map[string]propCfg{
 	"C07": {Focus: "C07", Arms: []string{"ample", "prefetch", "tiny", "redis"}, Probes: []string{"cache_hit", "c07_group_checked", "c07_compared_with_first_relay", "c07_hit_expected"}},
 	"C08": {Focus: "C08", Arms: []string{"clean", "clean", "redis"}, Probes: []string{"cache_hit", "c08_ttl_checked", "cache_hit_last_quarter"}},
 	"C17": {Focus: "C17", Arms: []string{"addr", "auth", "mtls"}, Probes: []string{"c17a_case_checked", "c17b_case_checked", "c17_mtls_checked", "c17_mtls_unacceptable_client"}},
-	"C18": {Focus: "C18", Arms: []string{"xclose", "rclose", "startfault", "xclose"}, Probes: []string{"c18_upstream_close_checked", "c18_router_close_checked", "c18_call_after_close", "c18_call_inflight_at_close"}},
+	"C18": {Focus: "C18", Arms: []string{"xclose", "rclose", "startfault", "xclose", "latedial"}, Probes: []string{"c18_upstream_close_checked", "c18_router_close_checked", "c18_call_after_close", "c18_call_inflight_at_close"}},
 	"C19": {Focus: "C19", Arms: []string{"clean", "clean", "prefetch"}, Probes: []string{"cache_hit", "cache_hit_last_quarter", "c07_hit_expected"}},
 	"C09": {Focus: "C09", Arms: []string{"clean"}, Probes: []string{"c09_truncated", "c09_fits"}},
 	"C10": {Focus: "C10", Arms: []string{"clean", "startfault", "clean", "prefetch", "cli"}, Probes: []string{"c10_cli_unknown_key_rejected", "c10_cli_control_started", "c10_forward_checked", "c10_reject", "c10_refused"}},
@@ -552,6 +552,10 @@ func main() {
 		reported = append(reported, map[string]any{"clause": f.v.Clause, "seed": f.res.Seed, "arm": f.res.Arm, "detail": f.v.Detail, "replay": path, "replay_confirmed": confirmed})
 		exit = 1
 	}
+	if *tier == "thorough" && *budget == 0 {
+		// determinism self-test as part of the thorough tier (reported, not judged)
+		determinism(cfg, seed+7, 24, *workers)
+	}
 	writeEvidence(*evidenceDir, *prop, *tier, seed, cfg, results, wall, reported, knownSeen, others, undecided)
 	for _, k := range sortedKeys(otherEx) {
 		fmt.Printf("note: violation of another property seen during this campaign: %s (%d) e.g. %s\n", k, others[k], tail(otherEx[k], 400))
@@ -806,6 +810,10 @@ func doReplay(prop, path string, findings []finding) int {
 }
 
 // determinism runs n seeds twice each and compares event-log hashes.
+// detSample is filled by the thorough tier: n seeds run twice, full event-log
+// hashes compared.
+var detSample map[string]any
+
 func determinism(cfg propCfg, seed uint64, n, workers int) int {
 	type pair struct{ a, b string }
 	res := make([]pair, n)
@@ -838,10 +846,11 @@ func determinism(cfg propCfg, seed uint64, n, workers int) int {
 		if p.a == p.b && p.a != "crashed" {
 			agree++
 		} else {
-			fmt.Printf("determinism: seed #%d differs: %s vs %s\n", i, p.a, p.b)
+			fmt.Printf("determinism: seed #%d (run seed %d, arm %s) differs: %s vs %s\n", i, mix(seed*1000003+uint64(i)), cfg.Arms[i%len(cfg.Arms)], p.a, p.b)
 		}
 	}
 	fmt.Printf("determinism: %d/%d seeds agree\n", agree, n)
+	detSample = map[string]any{"seeds_run_twice": n, "identical_event_logs": agree}
 	if agree == n {
 		return 0
 	}
@@ -930,6 +939,7 @@ func writeEvidence(dir, prop, tier string, seed uint64, cfg propCfg, results []*
 			"runs_ok":                        ok,
 			"runs_died_undecided":            crashed - countCrashViolations(reported),
 			"runs_event_cap":                 exhausted,
+			"determinism_sample":             detSample,
 			"arms":                           arms,
 			"run_seeds_first":                seeds,
 			"runs_per_hour":                  float64(ok) / wall * 3600,
